@@ -11,8 +11,8 @@
    sub_ty                   = the order bool < int < float, String alone *)
 From Coq Require Import ZArith QArith List Bool.
 From RV Require Import Base.Wire Base.Text Lang.PyAst Lang.PySem Lang.Infer Lang.InferGuard Lang.InferSpec
-  Lang.InferComp Lang.Decl Lang.DeclSpec Lang.FnSpec Lang.AliasSpec Lang.StmtRef Lang.CtlSpec
-  Proofs.InferP Proofs.JoinP Proofs.DeclP Proofs.FnP Proofs.CompP Proofs.CtlP.
+  Lang.InferComp Lang.Decl Lang.DeclSpec Lang.FnSpec Lang.AliasSpec Lang.StmtRef Lang.CtlSpec Lang.CallFree
+  Proofs.InferP Proofs.JoinP Proofs.DeclP Proofs.FnP Proofs.CompP Proofs.CtlP Proofs.DynP.
 Import ListNotations.
 Open Scope Z_scope.
 
@@ -217,7 +217,10 @@ Print Assumptions C02_branch_hoist_refuted.
 
 (* ---------------------------------------------------------------- function results, values
    ret_body rets          = a function body  [if c: return e | return e]*  (Lang/FnSpec.v)
-   parse_function_core    = _parse_function for one call signature (Lang/Decl.v)
+   parse_function_core    = _parse_function for one call signature (Lang/Decl.v): the body is typed with the on-demand machinery
+                            (a call of another helper under a new signature parses that variant in the middle of the body)
+   ucf_block body         = the body calls no user function (Lang/CallFree.v): the reference expression semantics has no
+                            user-function calls, so the value theorems are stated for such bodies
    fn_tenv cur params sg  = var_types inside that variant; fn_table = the functions table the body is typed with
    ret_guard              = every return expression is inside [guard] and has a scalar label *)
 
@@ -235,12 +238,13 @@ Print Assumptions C02_result_covers_every_return_partial.
    whose names hold values of their labels, the declared C return type holds the value of every return expression *)
 Theorem C02_function_result_covers_partial :
   forall C fe cur name params rets sg fe1 p1 final d rho,
+    ucf_block (ret_body rets) = true -> fe_err fe = false ->
     parse_function_core C fe cur name (mk_fsrc params None (ret_body rets)) (Some sg) = Some (fe1, p1, final) ->
     ret_guard (fn_table fe name) (fe_alias fe) C (fn_tenv cur params sg) rets = true ->
     env_sound (fn_tenv cur params sg) rho ->
     sig_lookup final (get_or [] (tlookup name (fe_defs fe1))) = Some d ->
     forall g e v, In (g, e) rets -> peval rho e = Ok v -> crepr (fd_ret d) v.
-Proof. exact function_result_covers. Qed.
+Proof. exact function_result_covers_dyn. Qed.
 Print Assumptions C02_function_result_covers_partial.
 
 (* def debounce(count, limit): if count < 0: return False ; if count >= limit: return True ; return count + 1
@@ -249,12 +253,13 @@ Example C02_function_result_nonvacuous :
   exists fe1 p1 d,
     parse_function_core None fenv0 empty_ctx z_f (mk_fsrc debounce_params None (ret_body debounce_rets)) (Some [TInt; TInt])
       = Some (fe1, p1, [TInt; TInt]) /\
+    ucf_block (ret_body debounce_rets) = true /\
     ret_guard (fn_table fenv0 z_f) (fe_alias fenv0) None (fn_tenv empty_ctx debounce_params [TInt; TInt]) debounce_rets = true /\
     env_sound (fn_tenv empty_ctx debounce_params [TInt; TInt]) debounce_rho /\
     sig_lookup [TInt; TInt] (get_or [] (tlookup z_f (fe_defs fe1))) = Some d /\ fd_ret d = CInt /\
     peval debounce_rho (EBin Add (EName z_count) (EInt 1)) = Ok (VInt 4) /\
     peval debounce_rho (EBool true) = Ok (VBool true).
-Proof. exact debounce_nonvacuous. Qed.
+Proof. exact debounce_nonvacuous_dyn. Qed.
 Print Assumptions C02_function_result_nonvacuous.
 
 (* a parameter is declared from the label var_types holds for it at the END of the body:
@@ -370,13 +375,14 @@ Print Assumptions C02_shadowing_target_keeps_label.
    signature whose canonical form has no definition). *)
 Theorem C02_call_site_typed_from_its_variant_partial :
   forall C fe cur name src sg fe1 p1 final,
+    ucf_block (fs_body src) = true -> fe_err fe = false ->
     sig_lookup sg (get_or [] (tlookup name (fe_alias fe))) = None ->
     parse_function_core C fe cur name src (Some sg) = Some (fe1, p1, final) ->
     resolve_alias (fe_alias fe1) name sg = final /\
     exists d t, sig_lookup final (get_or [] (tlookup name (fe_defs fe1))) = Some d /\
                 resolve_call (fe_F fe1) (fe_alias fe1) name sg = Some t /\
                 fd_ret d = cpp_type t.
-Proof. exact call_site_typed_from_its_variant. Qed.
+Proof. exact call_site_typed_from_its_variant_dyn. Qed.
 Print Assumptions C02_call_site_typed_from_its_variant_partial.
 
 (* def blend(a, b): a = a + b ; return a   after blend(x, y) on floats: the (float, float) variant exists, and
@@ -384,11 +390,12 @@ Print Assumptions C02_call_site_typed_from_its_variant_partial.
 Example C02_call_site_nonvacuous :
   exists ps fe1 p1,
     blend_after_final_first = Some ps /\
+    ucf_block (fs_body blend_src) = true /\ fe_err (p_fe ps) = false /\
     sig_lookup [TFloat; TFloat] (get_or [] (tlookup z_blend (fe_defs (p_fe ps)))) <> None /\
     sig_lookup [TInt; TFloat] (get_or [] (tlookup z_blend (fe_alias (p_fe ps)))) = None /\
     parse_function_core None (p_fe ps) (p_ctx ps) z_blend blend_src (Some [TInt; TFloat]) = Some (fe1, p1, [TFloat; TFloat]) /\
     resolve_call (fe_F fe1) (fe_alias fe1) z_blend [TInt; TFloat] = Some TFloat.
-Proof. exact call_site_nonvacuous. Qed.
+Proof. exact call_site_nonvacuous_dyn. Qed.
 Print Assumptions C02_call_site_nonvacuous.
 
 (* refuted: requested signatures that end on the same final signature share ONE stored definition - the one parsed
@@ -502,6 +509,7 @@ Print Assumptions C02_stored_values_within_final_labels_partial.
                             (typed from the label it has when the body starts), the declared return type for a returned value *)
 Theorem C02_function_body_covers_partial :
   forall C fe cur name params body sg fe1 p1 final d orc rho orc1 rho1 tr ret,
+    ucf_block body = true -> fe_err fe = false ->
     parse_function_core C fe cur name (mk_fsrc params None body) (Some sg) = Some (fe1, p1, final) ->
     fn_guard (fn_table fe name) (fe_alias fe) C cur params sg body = true ->
     env_lab (d_types (fn_ctx cur params sg)) rho ->
@@ -509,7 +517,7 @@ Theorem C02_function_body_covers_partial :
     exec_block orc rho body = Ok (orc1, rho1, tr, ret) ->
     Forall (fn_ev d (lab_decls (d_types (fn_ctx cur params sg)))) tr /\
     (forall p c, In (p, c) (fd_params d) -> c = cpp_type (tget (d_types (fn_ctx cur params sg)) p)).
-Proof. exact function_body_covers. Qed.
+Proof. exact function_body_covers_dyn. Qed.
 Print Assumptions C02_function_body_covers_partial.
 
 (* def f(p, q): w = p * 2 ; if ..: return w ; for i in range(..): (if ..: return q + 0.5) ; w = w + i ; return w
@@ -517,13 +525,14 @@ Print Assumptions C02_function_body_covers_partial.
 Example C02_function_body_nonvacuous :
   exists fe1 d rho1 tr,
     parse_function_core None fenv0 fresh_cur w_x (mk_fsrc fparams None fbody) (Some fsig) = Some (fe1, None, fsig) /\
+    ucf_block fbody = true /\
     fn_guard (fn_table fenv0 w_x) (fe_alias fenv0) None fresh_cur fparams fsig fbody = true /\
     env_lab (d_types (fn_ctx fresh_cur fparams fsig)) frho /\
     sig_lookup fsig (get_or [] (tlookup w_x (fe_defs fe1))) = Some d /\
     fd_ret d = CFloat /\ fd_locals d = [(w_w, CInt)] /\ fd_params d = [(w_p, CInt); (w_q, CFloat)] /\
     exec_block foracle frho fbody = Ok ([], rho1, tr, true) /\
     In (TReturn (VFloat 1)) tr /\ In (TAssign w_w (VInt 6)) tr.
-Proof. exact demo_function_nonvacuous. Qed.
+Proof. exact demo_function_nonvacuous_dyn. Qed.
 Print Assumptions C02_function_body_nonvacuous.
 
 (* the boundary: the body of g of C02_loop_hoist_stale_table_refuted is outside the guard exactly when the shared promotion
@@ -560,3 +569,46 @@ Example C02_tuple_nonvacuous :
   (exists rho tr, exec_prog [1]%nat demo_tuple_pre BNil = Ok ([], rho, tr, false) /\ In (TAssign w_b (VFloat 5)) tr).
 Proof. exact demo_tuple_nonvacuous. Qed.
 Print Assumptions C02_tuple_nonvacuous.
+
+(* ---------------------------------------------------------------- helpers calling helpers
+   The body of a function is typed by the same machinery as the top level (Lang/Decl.v parse_function_step): a call f(..) under
+   a signature f has no variant for makes _ensure_function_variant parse that variant on the spot, in the middle of the caller's
+   body; recursion is cut by _refreshing_functions (and, in the model, by fuel). *)
+
+(* for a body that calls no user function the on-demand machinery is never entered: _parse_function is the static typing the
+   function theorems above were first proved for - whatever is plugged in for the nested parses *)
+Theorem C02_call_free_body_parses_statically :
+  forall C pf fe cur name src forced,
+    ucf_block (fs_body src) = true -> fe_err fe = false ->
+    parse_function_step C pf fe cur name src forced = parse_function_static C fe cur name src forced.
+Proof. exact parse_dynamic_is_static. Qed.
+Print Assumptions C02_call_free_body_parses_statically.
+
+(* the user-function step at ANY call site (column 0, a nested block, the body of another helper): a signature the callee has
+   neither a variant nor an alias for is parsed on the spot, and the call expression is labelled with the return type of the
+   definition that parse stores (callee bodies that call no user function) *)
+Theorem C02_nested_call_typed_from_parsed_variant_partial :
+  forall C k declared fe p G f sg src,
+    tlookup f (fe_src fe) = Some src -> ucf_block (fs_body src) = true -> fe_err fe = false ->
+    sig_lookup sg (get_or [] (tlookup f (fe_alias fe))) = None ->
+    sig_lookup sg (get_or [] (tlookup f (fe_defs fe))) = None ->
+    refreshing fe f sg = false ->
+    forall fe2 p2 r,
+      call_dyn_with (parse_function_fuel C (Datatypes.S k)) declared (fe, p) G f sg = ((fe2, p2), r) ->
+      fe_err fe2 = false ->
+      exists d t final, r = Some t /\ resolve_alias (fe_alias fe2) f sg = final /\
+                        sig_lookup final (get_or [] (tlookup f (fe_defs fe2))) = Some d /\ fd_ret d = cpp_type t.
+Proof. exact nested_call_typed_from_parsed_variant. Qed.
+Print Assumptions C02_nested_call_typed_from_parsed_variant_partial.
+
+(* def ident(p): return p ; def twice(p): return ident(p) + ident(p) ; x = 2.5 ; a = twice(x) ; b = twice(3) *)
+Example C02_helper_calls_helper :
+  exists ps,
+    run_items None hh_prog = Some ps /\
+    p_globals ps = [(w_x, CFloat); (w_a, CFloat); (w_b, CInt)] /\
+    map (fun nd => (fst nd, fd_params (snd nd), fd_ret (snd nd))) (selected_functions (p_fe ps)) =
+      [(n_ident, [(w_p, CInt)], CInt); (n_ident, [(w_p, CFloat)], CFloat);
+       (n_twice, [(w_p, CFloat)], CFloat); (n_twice, [(w_p, CInt)], CInt)] /\
+    tlookup n_ident (fe_calls (p_fe ps)) = Some [[TInt]; [TFloat]].
+Proof. exact helper_calls_helper. Qed.
+Print Assumptions C02_helper_calls_helper.
